@@ -47,9 +47,9 @@ type System struct {
 	honest  []int // validator indices of the honest nodes (slots 0..2)
 	propH1  []int // proposer (validator index) of height 1 rounds 0..3
 	// byzantine proposal material for height 1 round 0
-	blkA, blkB   *types.Block
+	blkA, blkB     *types.Block
 	partsA, partsB *types.PartSet
-	labels       sync.Map // block hash hex -> short label
+	labels         sync.Map // block hash hex -> short label
 }
 
 var logger = log.NewNoopLogger()
